@@ -33,10 +33,6 @@ def GetOutputPrice (outputAmt : Int) (inputReserve : Int) (outputReserve : Int) 
   let t9 ← Int_Add t8 OneInt
   some t9
 
-def calcExactIn_boughtTokenAmt_1 (exactSoldCoin : Coin) (inputReserve : Int) (outputReserve : Int) (param_Fee : Dec) : Option (Int) := do
-  let t1 ← GetInputPrice exactSoldCoin.amount inputReserve outputReserve param_Fee
-  some t1
-
 /-- rejects when true: `!inputReserve.IsPositive()` -/
 def calcExactIn_guard_1 (inputReserve : Int) : Option (Bool) := do
   some (!(Int_IsPositive inputReserve))
@@ -45,8 +41,8 @@ def calcExactIn_guard_1 (inputReserve : Int) : Option (Bool) := do
 def calcExactIn_guard_2 (outputReserve : Int) : Option (Bool) := do
   some (!(Int_IsPositive outputReserve))
 
-def calcExactOut_soldTokenAmt_1 (exactBoughtCoin : Coin) (inputReserve : Int) (outputReserve : Int) (param_Fee : Dec) : Option (Int) := do
-  let t1 ← GetOutputPrice exactBoughtCoin.amount inputReserve outputReserve param_Fee
+def calcExactIn_boughtTokenAmt_1 (exactSoldCoin : Coin) (inputReserve : Int) (outputReserve : Int) (param_Fee : Dec) : Option (Int) := do
+  let t1 ← GetInputPrice exactSoldCoin.amount inputReserve outputReserve param_Fee
   some t1
 
 /-- rejects when true: `!inputReserve.IsPositive()` -/
@@ -60,6 +56,10 @@ def calcExactOut_guard_2 (outputReserve : Int) : Option (Bool) := do
 /-- rejects when true: `exactBoughtCoin.Amount.GTE(outputReserve)` -/
 def calcExactOut_guard_3 (exactBoughtCoin : Coin) (outputReserve : Int) : Option (Bool) := do
   some (Int_GTE exactBoughtCoin.amount outputReserve)
+
+def calcExactOut_soldTokenAmt_1 (exactBoughtCoin : Coin) (inputReserve : Int) (outputReserve : Int) (param_Fee : Dec) : Option (Int) := do
+  let t1 ← GetOutputPrice exactBoughtCoin.amount inputReserve outputReserve param_Fee
+  some t1
 
 /-- rejects when true: `boughtTokenAmt.LT(output.Coin.Amount)` -/
 def TradeExactIn_guard_1 (boughtTokenAmt : Int) (output_Coin : Coin) : Option (Bool) := do
@@ -77,30 +77,19 @@ def DoubleExactIn_guard_1 (boughtAmt : Int) (output_Coin : Coin) : Option (Bool)
 def DoubleExactOut_guard_1 (soldTokenAmt : Int) (input_Coin : Coin) : Option (Bool) := do
   some (Int_GT soldTokenAmt input_Coin.amount)
 
-def AddLiquidity_mintLiquidityAmt_1 (msg_ExactStandardAmt : Int) : Option (Int) := do
-  some msg_ExactStandardAmt
-
-def AddLiquidity_mintLiquidityAmt_2 (msg_ExactStandardAmt : Int) : Option (Int) := do
-  some msg_ExactStandardAmt
-
-def AddLiquidity_mintLiquidityAmt_3 (liquidity : Int) (msg_ExactStandardAmt : Int) (standardReserveAmt : Int) : Option (Int) := do
-  let t1 ← Int_Mul liquidity msg_ExactStandardAmt
-  let t2 ← Int_Quo t1 standardReserveAmt
-  some t2
-
-def AddLiquidity_depositAmt_1 (tokenReserveAmt : Int) (msg_ExactStandardAmt : Int) (standardReserveAmt : Int) : Option (Int) := do
-  let t1 ← Int_Mul tokenReserveAmt msg_ExactStandardAmt
-  let t2 ← Int_Quo t1 standardReserveAmt
-  let t3 ← Int_Add t2 (1 : Int)
-  some t3
-
 /-- rejects when true: `standardDenom == msg.MaxToken.Denom` -/
 def AddLiquidity_guard_1 (standardDenom : String) (msg_MaxToken : Coin) : Option (Bool) := do
   some (standardDenom == msg_MaxToken.denom)
 
+def AddLiquidity_mintLiquidityAmt_1 (msg_ExactStandardAmt : Int) : Option (Int) := do
+  some msg_ExactStandardAmt
+
 /-- rejects when true: `mintLiquidityAmt.LT(msg.MinLiquidity)` -/
 def AddLiquidity_guard_2 (mintLiquidityAmt : Int) (msg_MinLiquidity : Int) : Option (Bool) := do
   some (Int_LT mintLiquidityAmt msg_MinLiquidity)
+
+def AddLiquidity_mintLiquidityAmt_2 (msg_ExactStandardAmt : Int) : Option (Int) := do
+  some msg_ExactStandardAmt
 
 /-- rejects when true: `mintLiquidityAmt.LT(msg.MinLiquidity)` -/
 def AddLiquidity_guard_3 (mintLiquidityAmt : Int) (msg_MinLiquidity : Int) : Option (Bool) := do
@@ -110,23 +99,24 @@ def AddLiquidity_guard_3 (mintLiquidityAmt : Int) (msg_MinLiquidity : Int) : Opt
 def AddLiquidity_guard_4 (standardReserveAmt : Int) (tokenReserveAmt : Int) (liquidity : Int) : Option (Bool) := do
   some (((Int_IsZero standardReserveAmt) || (Int_IsZero tokenReserveAmt)) || (Int_IsZero liquidity))
 
+def AddLiquidity_mintLiquidityAmt_3 (liquidity : Int) (msg_ExactStandardAmt : Int) (standardReserveAmt : Int) : Option (Int) := do
+  let t1 ← Int_Mul liquidity msg_ExactStandardAmt
+  let t2 ← Int_Quo t1 standardReserveAmt
+  some t2
+
 /-- rejects when true: `mintLiquidityAmt.LT(msg.MinLiquidity)` -/
 def AddLiquidity_guard_5 (mintLiquidityAmt : Int) (msg_MinLiquidity : Int) : Option (Bool) := do
   some (Int_LT mintLiquidityAmt msg_MinLiquidity)
 
+def AddLiquidity_depositAmt_1 (tokenReserveAmt : Int) (msg_ExactStandardAmt : Int) (standardReserveAmt : Int) : Option (Int) := do
+  let t1 ← Int_Mul tokenReserveAmt msg_ExactStandardAmt
+  let t2 ← Int_Quo t1 standardReserveAmt
+  let t3 ← Int_Add t2 (1 : Int)
+  some t3
+
 /-- rejects when true: `depositAmt.GT(msg.MaxToken.Amount)` -/
 def AddLiquidity_guard_6 (depositAmt : Int) (msg_MaxToken : Coin) : Option (Bool) := do
   some (Int_GT depositAmt msg_MaxToken.amount)
-
-def RemoveLiquidity_irisWithdrawnAmt_1 (msg_WithdrawLiquidity : Coin) (standardReserveAmt : Int) (liquidityReserve : Int) : Option (Int) := do
-  let t1 ← Int_Mul msg_WithdrawLiquidity.amount standardReserveAmt
-  let t2 ← Int_Quo t1 liquidityReserve
-  some t2
-
-def RemoveLiquidity_tokenWithdrawnAmt_1 (msg_WithdrawLiquidity : Coin) (tokenReserveAmt : Int) (liquidityReserve : Int) : Option (Int) := do
-  let t1 ← Int_Mul msg_WithdrawLiquidity.amount tokenReserveAmt
-  let t2 ← Int_Quo t1 liquidityReserve
-  some t2
 
 /-- rejects when true: `standardReserveAmt.LT(msg.MinStandardAmt)` -/
 def RemoveLiquidity_guard_1 (standardReserveAmt : Int) (msg_MinStandardAmt : Int) : Option (Bool) := do
@@ -140,6 +130,16 @@ def RemoveLiquidity_guard_2 (tokenReserveAmt : Int) (msg_MinToken : Int) : Optio
 def RemoveLiquidity_guard_3 (liquidityReserve : Int) (msg_WithdrawLiquidity : Coin) : Option (Bool) := do
   some (Int_LT liquidityReserve msg_WithdrawLiquidity.amount)
 
+def RemoveLiquidity_irisWithdrawnAmt_1 (msg_WithdrawLiquidity : Coin) (standardReserveAmt : Int) (liquidityReserve : Int) : Option (Int) := do
+  let t1 ← Int_Mul msg_WithdrawLiquidity.amount standardReserveAmt
+  let t2 ← Int_Quo t1 liquidityReserve
+  some t2
+
+def RemoveLiquidity_tokenWithdrawnAmt_1 (msg_WithdrawLiquidity : Coin) (tokenReserveAmt : Int) (liquidityReserve : Int) : Option (Int) := do
+  let t1 ← Int_Mul msg_WithdrawLiquidity.amount tokenReserveAmt
+  let t2 ← Int_Quo t1 liquidityReserve
+  some t2
+
 /-- rejects when true: `irisWithdrawCoin.Amount.LT(msg.MinStandardAmt)` -/
 def RemoveLiquidity_guard_4 (irisWithdrawCoin : Coin) (msg_MinStandardAmt : Int) : Option (Bool) := do
   some (Int_LT irisWithdrawCoin.amount msg_MinStandardAmt)
@@ -147,6 +147,10 @@ def RemoveLiquidity_guard_4 (irisWithdrawCoin : Coin) (msg_MinStandardAmt : Int)
 /-- rejects when true: `tokenWithdrawCoin.Amount.LT(msg.MinToken)` -/
 def RemoveLiquidity_guard_5 (tokenWithdrawCoin : Coin) (msg_MinToken : Int) : Option (Bool) := do
   some (Int_LT tokenWithdrawCoin.amount msg_MinToken)
+
+/-- rejects when true: `msg.ExactToken.Denom != msg.CounterpartyDenom && msg.ExactToken.Denom != k.GetStandardDenom(ctx)` -/
+def AddUnilateral_guard_1 (msg_ExactToken : Coin) (msg_CounterpartyDenom : String) (read_k_GetStandardDenom_ctx : String) : Option (Bool) := do
+  some ((msg_ExactToken.denom != msg_CounterpartyDenom) && (msg_ExactToken.denom != read_k_GetStandardDenom_ctx))
 
 def AddUnilateral_numerator_1 (deltaFeeUnilateral : Dec) : Option (Int) := do
   let t1 ← NewIntFromBigInt (Dec_BigInt deltaFeeUnilateral)
@@ -171,13 +175,25 @@ def AddUnilateral_mintLptAmt_1 (squareBigInt : Int) (lptBalanceAmt : Int) : Opti
   let t2 ← Int_Sub t1 lptBalanceAmt
   some t2
 
-/-- rejects when true: `msg.ExactToken.Denom != msg.CounterpartyDenom && msg.ExactToken.Denom != k.GetStandardDenom(ctx)` -/
-def AddUnilateral_guard_1 (msg_ExactToken : Coin) (msg_CounterpartyDenom : String) (read_k_GetStandardDenom_ctx : String) : Option (Bool) := do
-  some ((msg_ExactToken.denom != msg_CounterpartyDenom) && (msg_ExactToken.denom != read_k_GetStandardDenom_ctx))
-
 /-- rejects when true: `mintLptAmt.LT(msg.MinLiquidity)` -/
 def AddUnilateral_guard_2 (mintLptAmt : Int) (msg_MinLiquidity : Int) : Option (Bool) := do
   some (Int_LT mintLptAmt msg_MinLiquidity)
+
+/-- rejects when true: `msg.MinToken.Denom != msg.CounterpartyDenom && msg.MinToken.Denom != k.GetStandardDenom(ctx)` -/
+def RemoveUnilateral_guard_1 (msg_MinToken : Coin) (msg_CounterpartyDenom : String) (read_k_GetStandardDenom_ctx : String) : Option (Bool) := do
+  some ((msg_MinToken.denom != msg_CounterpartyDenom) && (msg_MinToken.denom != read_k_GetStandardDenom_ctx))
+
+/-- rejects when true: `lptBalanceAmt.LT(msg.ExactLiquidity)` -/
+def RemoveUnilateral_guard_2 (lptBalanceAmt : Int) (msg_ExactLiquidity : Int) : Option (Bool) := do
+  some (Int_LT lptBalanceAmt msg_ExactLiquidity)
+
+/-- rejects when true: `lptBalanceAmt.Equal(msg.ExactLiquidity)` -/
+def RemoveUnilateral_guard_3 (lptBalanceAmt : Int) (msg_ExactLiquidity : Int) : Option (Bool) := do
+  some (Int_Equal lptBalanceAmt msg_ExactLiquidity)
+
+/-- rejects when true: `targetBalanceAmt.LT(msg.MinToken.Amount)` -/
+def RemoveUnilateral_guard_4 (targetBalanceAmt : Int) (msg_MinToken : Coin) : Option (Bool) := do
+  some (Int_LT targetBalanceAmt msg_MinToken.amount)
 
 def RemoveUnilateral_feeNumerator_1 (deltaFeeUnilateral : Dec) : Option (Int) := do
   let t1 ← NewIntFromBigInt (Dec_BigInt deltaFeeUnilateral)
@@ -204,22 +220,6 @@ def RemoveUnilateral_targetTokenAmtAfterFee_1 (targetTokenNumerator : Int) (targ
   let t1 ← Int_Quo targetTokenNumerator targetTokenDenominator
   some t1
 
-/-- rejects when true: `msg.MinToken.Denom != msg.CounterpartyDenom && msg.MinToken.Denom != k.GetStandardDenom(ctx)` -/
-def RemoveUnilateral_guard_1 (msg_MinToken : Coin) (msg_CounterpartyDenom : String) (read_k_GetStandardDenom_ctx : String) : Option (Bool) := do
-  some ((msg_MinToken.denom != msg_CounterpartyDenom) && (msg_MinToken.denom != read_k_GetStandardDenom_ctx))
-
-/-- rejects when true: `lptBalanceAmt.LT(msg.ExactLiquidity)` -/
-def RemoveUnilateral_guard_2 (lptBalanceAmt : Int) (msg_ExactLiquidity : Int) : Option (Bool) := do
-  some (Int_LT lptBalanceAmt msg_ExactLiquidity)
-
-/-- rejects when true: `lptBalanceAmt.Equal(msg.ExactLiquidity)` -/
-def RemoveUnilateral_guard_3 (lptBalanceAmt : Int) (msg_ExactLiquidity : Int) : Option (Bool) := do
-  some (Int_Equal lptBalanceAmt msg_ExactLiquidity)
-
-/-- rejects when true: `targetBalanceAmt.LT(msg.MinToken.Amount)` -/
-def RemoveUnilateral_guard_4 (targetBalanceAmt : Int) (msg_MinToken : Coin) : Option (Bool) := do
-  some (Int_LT targetBalanceAmt msg_MinToken.amount)
-
 /-- rejects when true: `targetTokenAmtAfterFee.LT(msg.MinToken.Amount)` -/
 def RemoveUnilateral_guard_5 (targetTokenAmtAfterFee : Int) (msg_MinToken : Coin) : Option (Bool) := do
   some (Int_LT targetTokenAmtAfterFee msg_MinToken.amount)
@@ -228,6 +228,6 @@ def RemoveUnilateral_guard_5 (targetTokenAmtAfterFee : Int) (msg_MinToken : Coin
 def untranslated : List String := []
 
 /-- names of the translated definitions -/
-def translated : List String := ["GetInputPrice(inputAmt,inputReserve,outputReserve,fee)", "GetOutputPrice(outputAmt,inputReserve,outputReserve,fee)", "calcExactIn_boughtTokenAmt_1(exactSoldCoin,inputReserve,outputReserve,param_Fee)", "calcExactIn_guard_1(inputReserve)", "calcExactIn_guard_2(outputReserve)", "calcExactOut_soldTokenAmt_1(exactBoughtCoin,inputReserve,outputReserve,param_Fee)", "calcExactOut_guard_1(inputReserve)", "calcExactOut_guard_2(outputReserve)", "calcExactOut_guard_3(exactBoughtCoin,outputReserve)", "TradeExactIn_guard_1(boughtTokenAmt,output_Coin)", "TradeExactOut_guard_1(soldTokenAmt,input_Coin)", "DoubleExactIn_guard_1(boughtAmt,output_Coin)", "DoubleExactOut_guard_1(soldTokenAmt,input_Coin)", "AddLiquidity_mintLiquidityAmt_1(msg_ExactStandardAmt)", "AddLiquidity_mintLiquidityAmt_2(msg_ExactStandardAmt)", "AddLiquidity_mintLiquidityAmt_3(liquidity,msg_ExactStandardAmt,standardReserveAmt)", "AddLiquidity_depositAmt_1(tokenReserveAmt,msg_ExactStandardAmt,standardReserveAmt)", "AddLiquidity_guard_1(standardDenom,msg_MaxToken)", "AddLiquidity_guard_2(mintLiquidityAmt,msg_MinLiquidity)", "AddLiquidity_guard_3(mintLiquidityAmt,msg_MinLiquidity)", "AddLiquidity_guard_4(standardReserveAmt,tokenReserveAmt,liquidity)", "AddLiquidity_guard_5(mintLiquidityAmt,msg_MinLiquidity)", "AddLiquidity_guard_6(depositAmt,msg_MaxToken)", "RemoveLiquidity_irisWithdrawnAmt_1(msg_WithdrawLiquidity,standardReserveAmt,liquidityReserve)", "RemoveLiquidity_tokenWithdrawnAmt_1(msg_WithdrawLiquidity,tokenReserveAmt,liquidityReserve)", "RemoveLiquidity_guard_1(standardReserveAmt,msg_MinStandardAmt)", "RemoveLiquidity_guard_2(tokenReserveAmt,msg_MinToken)", "RemoveLiquidity_guard_3(liquidityReserve,msg_WithdrawLiquidity)", "RemoveLiquidity_guard_4(irisWithdrawCoin,msg_MinStandardAmt)", "RemoveLiquidity_guard_5(tokenWithdrawCoin,msg_MinToken)", "AddUnilateral_numerator_1(deltaFeeUnilateral)", "AddUnilateral_denominator_1()", "AddUnilateral_square_1(denominator,tokenBalanceAmt,numerator,exactTokenAmt,lptBalanceAmt)", "AddUnilateral_mintLptAmt_1(squareBigInt,lptBalanceAmt)", "AddUnilateral_guard_1(msg_ExactToken,msg_CounterpartyDenom,read_k_GetStandardDenom_ctx)", "AddUnilateral_guard_2(mintLptAmt,msg_MinLiquidity)", "RemoveUnilateral_feeNumerator_1(deltaFeeUnilateral)", "RemoveUnilateral_feeDenominator_1()", "RemoveUnilateral_targetTokenNumerator_1(lptBalanceAmt,msg_ExactLiquidity,targetBalanceAmt,feeNumerator)", "RemoveUnilateral_targetTokenDenominator_1(lptBalanceAmt,feeDenominator)", "RemoveUnilateral_targetTokenAmtAfterFee_1(targetTokenNumerator,targetTokenDenominator)", "RemoveUnilateral_guard_1(msg_MinToken,msg_CounterpartyDenom,read_k_GetStandardDenom_ctx)", "RemoveUnilateral_guard_2(lptBalanceAmt,msg_ExactLiquidity)", "RemoveUnilateral_guard_3(lptBalanceAmt,msg_ExactLiquidity)", "RemoveUnilateral_guard_4(targetBalanceAmt,msg_MinToken)", "RemoveUnilateral_guard_5(targetTokenAmtAfterFee,msg_MinToken)"]
+def translated : List String := ["GetInputPrice(inputAmt,inputReserve,outputReserve,fee)", "GetOutputPrice(outputAmt,inputReserve,outputReserve,fee)", "calcExactIn_guard_1(inputReserve)", "calcExactIn_guard_2(outputReserve)", "calcExactIn_boughtTokenAmt_1(exactSoldCoin,inputReserve,outputReserve,param_Fee)", "calcExactOut_guard_1(inputReserve)", "calcExactOut_guard_2(outputReserve)", "calcExactOut_guard_3(exactBoughtCoin,outputReserve)", "calcExactOut_soldTokenAmt_1(exactBoughtCoin,inputReserve,outputReserve,param_Fee)", "TradeExactIn_guard_1(boughtTokenAmt,output_Coin)", "TradeExactOut_guard_1(soldTokenAmt,input_Coin)", "DoubleExactIn_guard_1(boughtAmt,output_Coin)", "DoubleExactOut_guard_1(soldTokenAmt,input_Coin)", "AddLiquidity_guard_1(standardDenom,msg_MaxToken)", "AddLiquidity_mintLiquidityAmt_1(msg_ExactStandardAmt)", "AddLiquidity_guard_2(mintLiquidityAmt,msg_MinLiquidity)", "AddLiquidity_mintLiquidityAmt_2(msg_ExactStandardAmt)", "AddLiquidity_guard_3(mintLiquidityAmt,msg_MinLiquidity)", "AddLiquidity_guard_4(standardReserveAmt,tokenReserveAmt,liquidity)", "AddLiquidity_mintLiquidityAmt_3(liquidity,msg_ExactStandardAmt,standardReserveAmt)", "AddLiquidity_guard_5(mintLiquidityAmt,msg_MinLiquidity)", "AddLiquidity_depositAmt_1(tokenReserveAmt,msg_ExactStandardAmt,standardReserveAmt)", "AddLiquidity_guard_6(depositAmt,msg_MaxToken)", "RemoveLiquidity_guard_1(standardReserveAmt,msg_MinStandardAmt)", "RemoveLiquidity_guard_2(tokenReserveAmt,msg_MinToken)", "RemoveLiquidity_guard_3(liquidityReserve,msg_WithdrawLiquidity)", "RemoveLiquidity_irisWithdrawnAmt_1(msg_WithdrawLiquidity,standardReserveAmt,liquidityReserve)", "RemoveLiquidity_tokenWithdrawnAmt_1(msg_WithdrawLiquidity,tokenReserveAmt,liquidityReserve)", "RemoveLiquidity_guard_4(irisWithdrawCoin,msg_MinStandardAmt)", "RemoveLiquidity_guard_5(tokenWithdrawCoin,msg_MinToken)", "AddUnilateral_guard_1(msg_ExactToken,msg_CounterpartyDenom,read_k_GetStandardDenom_ctx)", "AddUnilateral_numerator_1(deltaFeeUnilateral)", "AddUnilateral_denominator_1()", "AddUnilateral_square_1(denominator,tokenBalanceAmt,numerator,exactTokenAmt,lptBalanceAmt)", "AddUnilateral_mintLptAmt_1(squareBigInt,lptBalanceAmt)", "AddUnilateral_guard_2(mintLptAmt,msg_MinLiquidity)", "RemoveUnilateral_guard_1(msg_MinToken,msg_CounterpartyDenom,read_k_GetStandardDenom_ctx)", "RemoveUnilateral_guard_2(lptBalanceAmt,msg_ExactLiquidity)", "RemoveUnilateral_guard_3(lptBalanceAmt,msg_ExactLiquidity)", "RemoveUnilateral_guard_4(targetBalanceAmt,msg_MinToken)", "RemoveUnilateral_feeNumerator_1(deltaFeeUnilateral)", "RemoveUnilateral_feeDenominator_1()", "RemoveUnilateral_targetTokenNumerator_1(lptBalanceAmt,msg_ExactLiquidity,targetBalanceAmt,feeNumerator)", "RemoveUnilateral_targetTokenDenominator_1(lptBalanceAmt,feeDenominator)", "RemoveUnilateral_targetTokenAmtAfterFee_1(targetTokenNumerator,targetTokenDenominator)", "RemoveUnilateral_guard_5(targetTokenAmtAfterFee,msg_MinToken)"]
 
 end Irismod.Gen.PureCoinswap
